@@ -32,7 +32,7 @@ def _norm(sh):
 
 
 def make_task(case: dict):
-    return vu.RESULT_TYPES[case['type']](name='t', shape=case['shape'])
+    return vu.RESULT_TYPES[case['type']](name=('  T ' if case['type'] == 'RN' else 't'), shape=case['shape'])
 
 
 class Outcome:
